@@ -317,6 +317,36 @@ func runRevSuffix(args []string) {
 				}
 			}
 		}
+		// C04, auxiliary inputs (regexp is the arbiter, as for the pumped inputs of the search checks): a haystack the pattern matches
+		// WHOLE followed by another haystack of the record - the enumeration resumes exactly where a candidate, a guard and a
+		// rescan of the reverse searchers meet (a false candidate at the resume position, a real one behind it).
+		if pub != nil && want["C04"] {
+			var words [][]byte
+			for hi := range rec.Hs {
+				h := &rec.Hs[hi]
+				b := core.HayBytes(h.H)
+				if len(h.AtF) > 0 && len(h.AtF[0]) == 2 && h.AtF[0][0] == 0 && h.AtF[0][1] == len(b) && len(b) > 0 {
+					words = append(words, b)
+					if len(words) >= 12 {
+						break
+					}
+				}
+			}
+			for _, w := range words {
+				for hi := 0; hi < len(rec.Hs); hi += 5 {
+					b := append(append([]byte{}, w...), core.HayBytes(rec.Hs[hi].H)...)
+					hx = core.Hex(b)
+					wantAll := std.FindAllIndex(b, -1)
+					cases++
+					guard("FindAllIndex", func() {
+						if got := pub.FindAllIndex(b, -1); !eqAll(got, wantAll) {
+							rep.Fail(&core.Failure{Prop: "C04", API: "FindAllIndex", Mode: "first", Pattern: pat, Hay: hx, Want: fmt.Sprint(wantAll), Got: fmt.Sprint(got),
+								Strat: strat, Fam: rec.Fam, Args: "word+haystack"})
+						}
+					})
+				}
+			}
+		}
 		rep.Add(1, cases, calls, nontriv, strat)
 		if len(rec.Hs) > 0 {
 			rep.Sample(map[string]any{"pattern": pat, "suffix": string(suffix), "driver": tag, "strategy": strat,
